@@ -59,7 +59,21 @@ def check_naming(ctx, rule):
         good = False
         if isinstance(rv, ast.Call) and norm(rv.func) == 'number_to_letter_id' and len(rv.args) == 2 and len(aug) == 1:
             a0 = rv.args[0]
-            good = norm(a0) == 'self.index' and getattr(a0, '_ep', 99) < aug[0].ep and norm(rv.args[1]) == 'True'
+
+            def lin_(x):
+                """(coefficient of the counter's value BEFORE the increment, constant) of an arithmetic term over self.index"""
+                if isinstance(x, ast.Constant) and isinstance(x.value, int) and not isinstance(x.value, bool):
+                    return (0, x.value)
+                if isinstance(x, ast.Attribute) and norm(x) == 'self.index':
+                    return (1, 0) if getattr(x, '_ep', 99) < aug[0].ep else (1, 1)      # read after the store: already incremented
+                if isinstance(x, ast.BinOp) and isinstance(x.op, (ast.Add, ast.Sub)):
+                    l_, r_ = lin_(x.left), lin_(x.right)
+                    if l_ is None or r_ is None:
+                        return None
+                    sg = 1 if isinstance(x.op, ast.Add) else -1
+                    return (l_[0] + sg * r_[0], l_[1] + sg * r_[1])
+                return None
+            good = lin_(a0) == (1, 0) and norm(rv.args[1]) == 'True'
         ctx.check(good, rule, 'next:pre-increment', f_next.loc(), 'next() converts the value read before the increment, with capitals',
                   'next() returns %s' % norm(rv)[:80])
     f_name = repo.func('ConnectionImpl.name')
